@@ -213,6 +213,15 @@ func (in *Interp) havocValue(t types.Type, name string, opt *HavocOpts, depth in
 				return PtrV{}
 			}
 		}
+		if depth > in.param("havocnildepth", 99) && in.param("havocshallow", 0) == 1 {
+			// shallow mode: below the explored depth a present object is the zero value of its type (what a decoder leaves
+			// for an empty map), except for number-like models which stay arbitrary
+			if n, ok := u.Elem().(*types.Named); ok {
+				if _, isModel := havocModel[typeKey(n)]; !isModel {
+					return PtrV{C: in.newCell(u.Elem(), in.zero(u.Elem()))}
+				}
+			}
+		}
 		c := in.newCell(u.Elem(), in.havocValue(u.Elem(), name+".*", opt, depth+1))
 		return PtrV{C: c}
 	case *types.Slice:
@@ -237,7 +246,11 @@ func (in *Interp) havocValue(t types.Type, name string, opt *HavocOpts, depth in
 		}
 		in.cellSeq++
 		m := &MapObj{ID: in.cellSeq}
-		for _, k := range []string{"a", "b", "c"} {
+		mask := in.param("havockeys", 7)
+		for ki, k := range []string{"a", "b", "c"} {
+			if mask&(1<<uint(ki)) == 0 {
+				continue
+			}
 			if in.branch(in.freshVar(name+".has."+k, BoolSort)) {
 				m.Keys = append(m.Keys, concStr(k))
 				m.Vals = append(m.Vals, in.havocValue(u.Elem(), name+"["+k+"]", opt, depth+1))
